@@ -10,7 +10,8 @@
      zapcore/error.go  error.go       errArray.MarshalLogArray with the two errArrayElem pools
      zapcore/entry.go                 getCheckedEntry, reset, AddCore, After, Write, putCheckedEntry,
                                       EntryCaller.FullPath
-     zapcore/core.go                  ioCore.Write (sink write, then Free), ioCore.With
+     zapcore/core.go  zapcore/tee.go  ioCore.Write (sink write, then Free), ioCore.With; ioCore.Check /
+                                      multiCore.Check driven without a Logger (Check(ent, nil) + Write)
      internal/stacktrace/stack.go     Capture (First / Full with storage growth), Free, Take
      logger.go                        Logger.check (stack capture, caller, stack text)
 
@@ -617,6 +618,20 @@ Definition log_call (lg : logger) (ent : entry) (cs : list pc) (fs : list pf) : 
       end
   end.
 
+(* Core.Check(ent, nil) + [After(ent, hook)] + CheckedEntry.Write with NO zap.Logger around it
+   (ioCore.Check / multiCore.Check: ce.AddCore(ent, c) for each enabled core; this is how exp/zapslog's
+   Handler and every direct zapcore user drive a core).  Nothing on this path assigns ErrorOutput, and
+   the hook only if After is called: whatever reset() leaves in the recycled entry is what Write sees. *)
+Definition check_call (cores : list core) (hook : option nat) (ent : entry) (fs : list pf) : M (list event) :=
+  match cores, hook with
+  | [], None => ret []                                         (* ce == nil: Write is a no-op *)
+  | _, _ =>
+      ce0 <- get_checked_entry ;;                                (* first AddCore / After: getCheckedEntry(); ce.Entry = ent *)
+      ce_write {| ce_ent := ent; ce_errout := ce_errout ce0; ce_dirty := ce_dirty ce0;
+                  ce_after := (match hook with Some h => Some h | None => ce_after ce0 end);
+                  ce_cores := ce_cores ce0 ++ cores |} fs
+  end.
+
 (* ================================================================== *)
 (* specification: what each operation produces, as a function of its  *)
 (* inputs alone (no pools, no buffers, no identities)                 *)
@@ -751,6 +766,11 @@ Definition p_log (lg : logger) (ent : entry) (cs : list pc) (fs : list pf) : lis
       (match l_hook lg with Some h => [Hook h] | None => [] end)
   end.
 
+(* a bare Check + Write: every core handed in writes the entry once, the hook handed in (if any)
+   fires once; no error output (none was configured), no other hook, no other core *)
+Definition p_check (cores : list core) (hook : option nat) (ent : entry) (fs : list pf) : list event :=
+  fst (p_write_cores 0 cores ent fs) ++ (match hook with Some h => [Hook h] | None => [] end).
+
 (* ================================================================== *)
 (* operations of a history                                            *)
 (* ================================================================== *)
@@ -758,7 +778,8 @@ Inductive op :=
 | OWrite (co : core) (ent : entry) (fs : list pf)               (* Core.Write *)
 | OWith (e : enc) (fs : list pf)                                (* Core.With / Logger.With *)
 | OLog (lg : logger) (ent : entry) (cs : list pc) (fs : list pf)  (* Logger.Info ... : check + Write *)
-| OTake (cs : list pc).                                         (* zap.Stack *)
+| OTake (cs : list pc)                                          (* zap.Stack *)
+| OCheck (cores : list core) (hook : option nat) (ent : entry) (fs : list pf).  (* Core.Check(ent, nil) [.After] .Write, no Logger *)
 
 Inductive out := OutBytes (b : bytes) | OutEnc (e : enc) | OutEvents (l : list event).
 
@@ -770,6 +791,7 @@ Definition op_prog (o : op) : act out :=
   | OWith e fs => run_m (core_with e fs) OutEnc
   | OLog lg ent cs fs => run_m (log_call lg ent cs fs) OutEvents
   | OTake cs => run_m (take_stack cs) OutBytes
+  | OCheck cores hook ent fs => run_m (check_call cores hook ent fs) OutEvents
   end.
 
 (* the specification of an operation: a function of the operation alone *)
@@ -779,6 +801,7 @@ Definition op_spec (o : op) : out :=
   | OWith e fs => OutEnc (p_with e fs)
   | OLog lg ent cs fs => OutEvents (p_log lg ent cs fs)
   | OTake cs => OutBytes (p_take cs)
+  | OCheck cores hook ent fs => OutEvents (p_check cores hook ent fs)
   end.
 
 (* ================================================================== *)
@@ -933,7 +956,8 @@ Definition minit (progs : list (list op)) : machine :=
      fresh  bytes the probe produced in a fresh state (right after two GCs; also in a fresh process)
      hist   the (last <= 40 operations of the) history that preceded the observed probe, abstracted
             to the pooled operations of this model: (k a b c d e f)   k: 0 JSON write, 1 console
-            write, 2 With, 3 Logger call, 4 zap.Stack, 5 GC; a plain fields, b reflected ok,
+            write, 2 With, 3 Logger call, 4 zap.Stack, 5 GC, 6 Core.Check + Write without a Logger (f odd:
+            one of the two cores has a failing sink, f/2 odd: After(hook)); a plain fields, b reflected ok,
             c reflected failing, d namespaces, e error-group size, f flags/depth
      adv    the adversary's choices for the model run
      aprobe the observed probe, abstracted the same way
@@ -970,6 +994,9 @@ Definition dec_hitem (s : sx) : hitem :=
                       l_hook := None; l_errout := true; l_caller := Nat.odd (n 6 / 2); l_stack := Nat.odd (n 6 / 4) |}
                    wire_ent (seq 1 (n 6 / 8)) fs)
   | 4 => HOp (OTake (seq 1 (n 6)))
+  | 6 => HOp (OCheck [{| co_enc := wire_enc false; co_console := false; co_fail := false |};
+                      {| co_enc := wire_enc true; co_console := true; co_fail := Nat.odd (n 6) |}]
+                     (if Nat.odd (n 6 / 2) then Some 1 else None) wire_ent fs)
   | _ => HGC
   end.
 
